@@ -37,6 +37,24 @@ def _stored_names(nodes):
     return out
 
 
+MUTATORS = {"append", "extend", "insert", "update", "add", "discard", "remove", "pop", "clear", "sort", "setdefault", "popitem", "reverse"}
+
+
+def _mutated_names(nodes):
+    """local names whose *object* may be mutated in place inside the loop body (x[k] = v, x.append(v), del x[k], x[a:b] = ...)"""
+    out = set()
+    for b in nodes:
+        for n in ast.walk(b):
+            if isinstance(n, ast.Subscript) and isinstance(n.ctx, (ast.Store, ast.Del)) and isinstance(n.value, ast.Name):
+                out.add(n.value.id)
+            elif isinstance(n, ast.Call) and isinstance(n.func, ast.Attribute) and n.func.attr in MUTATORS and isinstance(n.func.value, ast.Name):
+                out.add(n.func.value.id)
+            elif isinstance(n, ast.AugAssign) and isinstance(n.target, ast.Name):
+                out.add(n.target.id)
+    out.discard("self")
+    return out
+
+
 def _parse_stmts(src):
     return ast.parse(src).body
 
@@ -63,10 +81,10 @@ class Cutter(ast.NodeTransformer):
             raise NotImplementedError("for/else is outside the supported subset")
         node = self.generic_visit(node)
         native = copy.deepcopy(node)
-        assigned = _stored_names(node.body) | _stored_names([node.target])
+        assigned = _stored_names(node.body) | _stored_names([node.target]) | _mutated_names(node.body)
         body_cut = [_BC().visit(copy.deepcopy(s)) for s in node.body]
         tmpl = _parse_stmts(
-            f"__seq{k} = __pv.begin({k}, __IT__)\n"
+            f"__seq{k} = __pv.begin({k}, __IT__, locals())\n"
             f"if __pv.concrete(__seq{k}):\n"
             f"    __NATIVE__\n"
             f"else:\n"
@@ -139,9 +157,10 @@ class Cutter(ast.NodeTransformer):
         if node.orelse:
             raise NotImplementedError("while/else is outside the supported subset")
         node = self.generic_visit(node)
-        assigned = _stored_names(node.body)
+        assigned = _stored_names(node.body) | _mutated_names(node.body)
         body_cut = [_BC().visit(copy.deepcopy(s)) for s in node.body]
         tmpl = _parse_stmts(
+            f"__pv.begin({k}, None, locals())\n"
             f"__pv.assert_inv({k}, 'init', locals(), None, 0)\n"
             f"__brk{k} = False\n"
             f"if __pv.nondet({k}):\n"
